@@ -514,6 +514,43 @@ impl fmt::Debug for Tok {
     }
 }
 
+/// `Display` exists so that the `Display` impls of vectors and matrices (which walk their
+/// elements, the column-major one through unchecked reads) can be observed like `Debug`.
+impl fmt::Display for Tok {
+    fn fmt(&self, f: &mut fmt::Formatter<'_>) -> fmt::Result {
+        #[cfg(miri)]
+        {
+            let _ = *self.heap;
+        }
+        if with(|l| l.on_touch(EV_FMT, "display", self.id, self.val)) {
+            std::panic::panic_any(Injected);
+        }
+        write!(f, "t{}", self.val)
+    }
+}
+
+/// Only ever invoked through the ordering probe (if `IntoIter<Tok>` gains `PartialOrd`/`Ord`).
+impl PartialOrd for Tok {
+    fn partial_cmp(&self, other: &Tok) -> Option<std::cmp::Ordering> {
+        Some(self.cmp(other))
+    }
+}
+impl Ord for Tok {
+    fn cmp(&self, other: &Tok) -> std::cmp::Ordering {
+        #[cfg(miri)]
+        {
+            let _ = *self.heap;
+            let _ = *other.heap;
+        }
+        let a = with(|l| l.on_touch(EV_EQ, "cmp", self.id, self.val));
+        let b = with(|l| l.on_touch(EV_EQ, "cmp", other.id, other.val));
+        if a || b {
+            std::panic::panic_any(Injected);
+        }
+        self.val.cmp(&other.val)
+    }
+}
+
 impl PartialEq for Tok {
     fn eq(&self, other: &Tok) -> bool {
         #[cfg(miri)]
